@@ -203,8 +203,11 @@ class Interp:
             v = env[node.id]
             if isinstance(v, ClassTok):
                 return [v.name.split(".")[-1].split(":")[-1]]
+            if isinstance(v, tuple) and len(v) == 2 and v[0] == "builtin":
+                return [v[1]]
             if isinstance(v, (tuple, list)):
-                return [x.name.split(".")[-1].split(":")[-1] if isinstance(x, ClassTok) else str(x) for x in v]
+                return [x.name.split(".")[-1].split(":")[-1] if isinstance(x, ClassTok) else
+                        x[1] if isinstance(x, tuple) and len(x) == 2 and x[0] == "builtin" else str(x) for x in v]
         return [(dotted(node) or "").split(".")[-1]]
 
     def exc_matches(self, raised: str, handler: str) -> bool:
@@ -464,6 +467,8 @@ class Interp:
                     nm = v.cls_name
                 elif isinstance(v, Raised):
                     raise v
+                elif isinstance(v, tuple) and len(v) == 2 and v[0] == "builtin" and v[1] in BUILTIN_EXC:
+                    nm = v[1]
             raise Raised((nm or "Exception").split(".")[-1])
         elif t is ast.Pass:
             return
@@ -888,15 +893,23 @@ class Interp:
             if self.truth(self.eval(n.test, env, func, depth)):
                 return self.eval(n.body, env, func, depth)
             return self.eval(n.orelse, env, func, depth)
-        if isinstance(n, (ast.Tuple, ast.List)):
-            vals = [self.eval(x, env, func, depth) for x in n.elts]
+        if isinstance(n, (ast.Tuple, ast.List, ast.Set)):
+            vals = []
+            for x in n.elts:
+                if isinstance(x, ast.Starred):
+                    vals.extend(self.iterate(self.eval(x.value, env, func, depth)))
+                else:
+                    vals.append(self.eval(x, env, func, depth))
+            if t is ast.Set:
+                return self._dedupe(vals, depth)
             return tuple(vals) if t is ast.Tuple else vals
-        if t is ast.Set:
-            return self._dedupe([self.eval(x, env, func, depth) for x in n.elts], depth)
         if t is ast.Dict:
             d = {}
             for k, v in zip(n.keys, n.values):
-                d[self.eval(k, env, func, depth)] = self.eval(v, env, func, depth)
+                if k is None:  # {**other}
+                    d.update(self.eval(v, env, func, depth))
+                else:
+                    d[self.eval(k, env, func, depth)] = self.eval(v, env, func, depth)
             return d
         if t is ast.JoinedStr:
             parts = []
